@@ -147,6 +147,9 @@ func (f *DefaultFanController) Run(ctx context.Context) error {
 	// check if we have data for this fan in persistence,
 	// if not we need to run the initialization sequence
 	ui.Info("Loading fan curve data for fan '%s'...", fan.GetId())
+	// set once the initialization sequence has switched the fan to manual mode and swept it:
+	// from then on every error return has to hand the fan back first
+	fanTouched := false
 	fanPwmData, err := f.persistence.LoadFanPwmData(fan)
 	if err != nil {
 		hwMonFan, ok := fan.(*fans.HwMonFan)
@@ -169,6 +172,7 @@ func (f *DefaultFanController) Run(ctx context.Context) error {
 				f.restorePwmEnabled()
 				return err
 			}
+			fanTouched = true
 		} else {
 			err = f.persistence.SaveFanPwmData(fan)
 			if err != nil {
@@ -179,11 +183,17 @@ func (f *DefaultFanController) Run(ctx context.Context) error {
 
 	fanPwmData, err = f.persistence.LoadFanPwmData(fan)
 	if err != nil {
+		if fanTouched {
+			f.restorePwmEnabled()
+		}
 		return err
 	}
 
 	err = fan.AttachFanRpmCurveData(&fanPwmData)
 	if err != nil {
+		if fanTouched {
+			f.restorePwmEnabled()
+		}
 		return err
 	}
 
